@@ -471,6 +471,32 @@ func runAll(c *run.Ctx) {
 			Pair(k, domain, b, a, false)
 		})
 	}
+	// the same configurations in bulk through the structural hook only (no oracle): a snapping miss leaves
+	// two nodes where the overlay needs one and breaks Euler's formula
+	for i := 0; i < c.N(1200, 12000); i++ {
+		c.Case("concurrent-hook", i, func(k *run.K) {
+			k.Nontrivial(fmt.Sprint("concurrent-hook", k.Index))
+			for rep := 0; rep < 25; rep++ {
+				cfg := gen.NewCfg(k.Rng, gen.DSmall)
+				cfg.Side = k.Rng.Range(6, 14)
+				cfg.OffX, cfg.OffY = -k.Rng.Range(0, cfg.Side), -k.Rng.Range(0, cfg.Side)
+				g := &gen.G{R: k.Rng, Cfg: cfg}
+				a, b, ok := g.ConcurrentPair()
+				if !ok {
+					continue
+				}
+				for _, pr := range [][2]geom.Geometry{{a, b}, {b, a}} {
+					var viol []string
+					if !k.Lib("nopanic", func() { viol, _ = geom.VerifOverlayInvariants(pr[0], pr[1]) }) {
+						if !k.Check("overlay-hook", len(viol) == 0, "VerifOverlayInvariants: %v\n a=%s\n b=%s", viol, pr[0].AsText(), pr[1].AsText()) {
+							return
+						}
+					}
+				}
+				k.Count("concurrent_hook_pairs", 1)
+			}
+		})
+	}
 	// stress stream: operands with up to three times as many vertices (large lattice and general position)
 	for i := 0; i < c.N(300, 6000); i++ {
 		c.Case("big", i, func(k *run.K) {
